@@ -6,7 +6,7 @@ from .common import gen_faults
 
 PROP = "C05"
 JUDGE = ("C05.",)
-PROGRAMS = ["calltree"]
+PROGRAMS = ["calltree", "genctx"]
 RUNS = {"quick": 3000, "thorough": 150000}
 
 
@@ -28,7 +28,50 @@ def gen_sel(rng, fns):
             "focus": None, "mode": "total"}
 
 
+def gen_generator_history(rng, tier):
+    """Probes / overlays that end while an instrumented generator is suspended: once a
+    probe is over it receives nothing and none of its handlers is installed any more,
+    whatever the generator does afterwards (resumed, closed, dropped)."""
+    from .common import gen_tape
+
+    def sel(chain, focus):
+        return {"levels": [{"fn": f, "caps": [], "sibs": []} for f in chain], "focus": {"var": focus, "as": focus}}
+
+    choices = [(["g"], "a"), (["gen", "g"], "a"), (["gen"], "x"), (["gen2", "g"], "a"), (["gen2"], "i")]
+    ops = []
+    kinds = {}
+    for pid in ("P", "Q"):
+        chain, focus = rng.choice(choices)
+        kinds[pid] = rng.choice(["probe", "probe", "overlay"])
+        ops.append({"op": "mk", "id": pid, "kind": kinds[pid], "sels": [sel(chain, focus)], "inv": "C05.exactly_once"})
+    if "overlay" in kinds.values():
+        ops[0:0] = [{"op": "tool", "fn": f, "how": "inplace"} for f in ("g", "gen", "gen2")]
+    gfn = rng.choice(["gen", "gen2"])
+    tape = lambda: gen_tape(rng, 6, hi=12, odd=0.6)
+    ops += [{"op": "enter", "id": "P"},
+            {"op": "gen_new", "gen": "g0", "fn": gfn, "nargs": 1, "cycle": rng.random() < 0.2},
+            {"op": "gen_next", "gen": "g0", "tape": tape(), "faults": {}}]
+    if rng.random() < 0.5:
+        ops.append({"op": "gen_next", "gen": "g0", "tape": tape(), "faults": {}})
+    ops.append({"op": "exit", "id": "P", "exc": rng.random() < 0.3})
+    if rng.random() < 0.6:
+        ops.append({"op": "enter", "id": "Q"})
+    for _ in range(rng.randint(1, 3)):
+        ops.append(rng.choice([
+            {"op": "gen_next", "gen": "g0", "tape": tape(), "faults": {}},
+            {"op": "call", "fn": "g", "nargs": 1, "tape": [], "faults": {}},
+        ]))
+    ops.append({"op": rng.choice(["gen_close", "gen_drop", "gen_next"]), "gen": "g0", "tape": [1, 0, 0], "faults": {}})
+    ops.append({"op": "gc", "tape": [], "faults": {}})
+    ops.append({"op": "call", "fn": "g", "nargs": 1, "tape": [], "faults": {}})
+    ops.append({"op": "exit", "id": "Q"})
+    ops.append({"op": "call", "fn": "g", "nargs": 1, "tape": [], "faults": {}})
+    return {"prog": "genctx", "ops": ops, "relax_inflight": True}
+
+
 def gen(rng, tier, quarantine=()):
+    if "no-generators" not in quarantine and rng.random() < 0.12:
+        return gen_generator_history(rng, tier)
     fns = rng.sample(FNS, rng.choice([1, 2, 2, 3]))
     nprobes = rng.randint(2, 4)
     kinds = {}
